@@ -12,22 +12,17 @@
 (* ("data": evaluated content differs, "flags": only merge flags differ,    *)
 (* "err": error class / success differs) and printed with the trace id.     *)
 (***************************************************************************)
-EXTENDS AyBuild, Props_C02, Props_C03, IOUtils, TLCExt
+EXTENDS AyBuild, Props_C02, Props_C03, Props_C04, IOUtils, TLCExt
 
 CONSTANT Prop   \* which property's declarative formula is evaluated on the logged outcomes
 
 Traces == ndJsonDeserialize(IOEnv.TRACE_FILE)
-NoDocs == <<>>
 
 VARIABLES tid, l, verdict,
           louts   \* the outcomes the library produced, as logged, stage by stage
 
 tvars == <<vars, tid, l, verdict, louts>>
 
-RECURSIVE SDofJ(_)
-SDofJ(j) == [j EXCEPT !.md = {<<j.md[x][1], j.md[x][2]>> : x \in DOMAIN j.md},
-                      !.ch = [i \in 1..Len(j.ch) |-> <<j.ch[i][1], SDofJ(j.ch[i][2])>>]]
-  
 RECURSIVE NodeOfJ(_)
 NodeOfJ(j) == IF "err" \in DOMAIN j THEN j
               ELSE [j EXCEPT !.md = {<<j.md[x][1], j.md[x][2]>> : x \in DOMAIN j.md},
@@ -93,12 +88,15 @@ PropVerdict ==
     CASE Prop = "C02" -> IF C02_Holds(HistDocs, louts) THEN "holds" ELSE "violated"
       [] Prop = "C03" -> IF ~C03_InDomain(HistDocs) THEN "outside"
                          ELSE IF C03_Holds(HistDocs, louts) THEN "holds" ELSE "violated"
+      [] Prop = "C04" -> IF ~C04_Judged(HistDocs, louts) THEN "outside"
+                         ELSE IF C04_Holds(HistDocs, louts) THEN "holds" ELSE "violated"
       [] OTHER -> "none"
 
 \* ... and on what the SPECIFICATION computed for the same history
 ModelVerdict ==
     CASE Prop = "C02" -> IF C02_Holds(HistDocs, accs) THEN "holds" ELSE "violated"
       [] Prop = "C03" -> IF C03_Holds(HistDocs, accs) THEN "holds" ELSE "violated"
+      [] Prop = "C04" -> IF C04_Holds(HistDocs, accs) THEN "holds" ELSE "violated"
       [] OTHER -> "none"
 
 \* one line per trace, printed at the state where the whole trace is consumed.
@@ -107,7 +105,7 @@ ModelVerdict ==
 Report ==
     (l = Len(Ev) + 1) =>
         PrintT(<<"TRACE", Traces[tid].tid, verdict, PropVerdict, ModelVerdict,
-                 IF verdict = "ok" /\ PropVerdict # "violated" THEN ""
+                 IF verdict = "ok" /\ PropVerdict # "violated" /\ ModelVerdict # "violated" THEN ""
                  ELSE ToJson([model |-> [j \in 1..Len(accs) |-> IF IsErr(accs[j]) THEN accs[j] ELSE accs[j]], k |-> k])>>)
 
 =============================================================================
